@@ -1007,6 +1007,7 @@ class SSHConnection(SSHPacketHandler, asyncio.Protocol):
         self._auth_complete = False
         self._auth_final = False
         self._auth_request_sent = False
+        self._auth_request_count = 0
         self._auth_methods = [b'none']
         self._auth_was_trivial = True
         self._username = ''
@@ -2098,6 +2099,9 @@ class SSHConnection(SSHPacketHandler, asyncio.Protocol):
     async def send_userauth_success(self) -> None:
         """Send a user authentication success response"""
 
+        if self._auth_complete:
+            return
+
         self.logger.info('Auth for user %s succeeded', self._username)
 
         self.send_packet(MSG_USERAUTH_SUCCESS)
@@ -2523,9 +2527,21 @@ class SSHConnection(SSHPacketHandler, asyncio.Protocol):
             else:
                 begin_auth = False
 
-            self.create_task(self._finish_userauth(begin_auth, method, packet))
+            # A new request supersedes any request still being processed,
+            # so a late result for an earlier request (possibly for another
+            # user) can never be credited to this one
+            if self._auth:
+                self._auth.cancel()
+                self._auth = None
 
-    async def _finish_userauth(self, begin_auth: bool, method: bytes,
+            self._auth_request_count += 1
+
+            self.create_task(self._finish_userauth(begin_auth, username,
+                                                   self._auth_request_count,
+                                                   method, packet))
+
+    async def _finish_userauth(self, begin_auth: bool, username: str,
+                               request_count: int, method: bytes,
                                packet: SSHPacket) -> None:
         """Finish processing a user authentication request"""
 
@@ -2537,10 +2553,15 @@ class SSHConnection(SSHPacketHandler, asyncio.Protocol):
             # pylint: disable=no-member
             await cast(SSHServerConnection, self).reload_config()
 
-            result = cast(SSHServer, self._owner).begin_auth(self._username)
+            result = cast(SSHServer, self._owner).begin_auth(username)
 
             if inspect.isawaitable(result):
                 result = await cast(Awaitable[bool], result)
+
+            if request_count != self._auth_request_count or \
+                    self._auth_complete:
+                # Superseded by a later request while waiting
+                return
 
             if not result:
                 await self.send_userauth_success()
@@ -2549,11 +2570,14 @@ class SSHConnection(SSHPacketHandler, asyncio.Protocol):
         if not self._owner: # pragma: no cover
             return
 
+        if request_count != self._auth_request_count or self._auth_complete:
+            return
+
         if self._auth:
             self._auth.cancel()
 
         self._auth = lookup_server_auth(cast(SSHServerConnection, self),
-                                             self._username, method, packet)
+                                             username, method, packet)
 
     def _process_userauth_failure(self, _pkttype: int, _pktid: int,
                                   packet: SSHPacket) -> None:
